@@ -328,6 +328,7 @@ class Engine:
 		fi = self.repo.funcinfo(qualname)
 		self.cur_label = self.label_of(qualname, inst_name)
 		self.top_label = self.cur_label
+		reset_names()     # query texts of one function do not depend on what was verified before it
 		self.cur_contract = c
 		self.cur_finfo = fi
 		self.nodeidx = _NodeIndex(fi.node)
